@@ -68,8 +68,8 @@ def anomaly(line):
         return None
     if line.get("out") not in ("ok", "rej", "query"):
         return "the request was not answered: %s" % line.get("out")
-    if not _is_int(line.get("id")) or not _is_int(line.get("filled")):
-        return "the response carries a non-integral id / filled quantity: %s %s" % (line.get("id"), line.get("filled"))
+    if not _is_int(line.get("id")) or not _is_int(line.get("filled")) or not _is_int(line.get("rt")):
+        return "the response carries a non-integral id / filled quantity / time: %s %s %s" % (line.get("id"), line.get("filled"), line.get("rt"))
     if line["out"] == "ok" and line["id"] < 0:
         return "the order id of an accepted order is not a number"
     d = _bad_ledger(line.get("res"), with_notif=False)
